@@ -347,8 +347,12 @@ func run(c *core.Ctx) core.Result {
 		if r2.Verdict == core.Violated && r2.Signature == sig {
 			r2.Detail += "\n(original input: " + core.Trunc(src, 600) + ")"
 			r2.Key = src
-			return r2
+			res = r2
+			src = min
 		}
 	}
+	// a re-panicked Go panic has lost its original frames, so the panic text alone would merge unrelated defects:
+	// the minimised witness is part of the signature
+	res.Signature = sig + "#" + core.Trunc(src, 160)
 	return res
 }
